@@ -422,7 +422,8 @@ def _upload(branch_dir, url, revid, full=False, overwrite=False, use_tip=False):
 
 
 _OPS = ["delete_remote_file", "delete_remote_dir", "delete_remote_dir_maybe", "upload_file", "upload_symlink", "make_remote_dir",
-        "rename_remote", "upload_file_robustly", "upload_symlink_robustly", "make_remote_dir_robustly", "_up_rename", "_up_rmdir"]
+        "rename_remote", "upload_file_robustly", "upload_symlink_robustly", "make_remote_dir_robustly", "_up_rename", "_up_rmdir",
+        "_up_delete_tree"]
 _current = {"ops": []}
 
 
@@ -564,7 +565,7 @@ def _exc_key(e, delta, snap_new, taint, pats=()):
         opname = o[0]
         args = list(o[1:])
         involved = args[:]
-        if opname in ("delete_remote_file", "delete_remote_dir", "delete_remote_dir_maybe", "rename_remote"):
+        if opname in ("delete_remote_file", "delete_remote_dir", "delete_remote_dir_maybe", "rename_remote", "_up_delete_tree"):
             subject, side = (args[0] if args else None), "old"
         elif opname == "upload_file":
             subject, side = (args[1] if len(args) > 1 else args[0]), "new"
@@ -601,7 +602,7 @@ def _exc_key(e, delta, snap_new, taint, pats=()):
     return "raised:%s@%s:%s" % (exc, opname, delta.cls.get(fid, "unchanged")), unspecified
 
 
-OLD_SIDE_OPS = ("delete_remote_file", "delete_remote_dir", "delete_remote_dir_maybe", "rename_remote", "finish_deletions")
+OLD_SIDE_OPS = ("delete_remote_file", "delete_remote_dir", "delete_remote_dir_maybe", "rename_remote", "finish_deletions", "_up_delete_tree")
 
 
 def _mechanism(delta, fid, patterns, sym, op, own):
@@ -615,6 +616,10 @@ def _mechanism(delta, fid, patterns, sym, op, own):
     newp = next((q for q, f in delta.new_at.items() if f == fid), None)
     if cls.startswith("renamed+kind_changed"):
         return "renamed+kind_changed-treated-as-plain-rename"
+    if not own and cls.startswith("kind_changed") and cls.endswith(">directory"):
+        # something had to be put below a file that only becomes a directory later in the same upload (the kind change is done
+        # after the renames and the directories created for them): the known variant of the rename-into-new-directory mechanism
+        return "rename-into-directory-added-in-same-upload"
     if cls.startswith("renamed+target") and own:
         return "renamed+retargeted-symlink-uploaded-as-file"
     if cls.startswith("renamed") and oldp and newp and patterns and _ignored(patterns, oldp) and not _ignored(patterns, newp):
